@@ -180,13 +180,14 @@ impl ElementMap for TransformerContext {
 }
 
 impl TransformerContext {
-    /// Bounding box of `el`, following `clip-path` references at most `depth_limit` deep
-    /// (a clipPath may itself be clipped; a cyclic chain must not recurse forever).
-    fn element_bbox_at_depth(&self, el: &SvgElement, depth: u32) -> Result<Option<BoundingBox>> {
-        if depth >= self.config.depth_limit {
-            return Err(SvgdxError::DepthLimitExceeded(
-                depth.saturating_add(1),
-                self.config.depth_limit,
+    /// Bounding box of `el`, following `clip-path` references (a clipPath may itself be
+    /// clipped; a cyclic chain must not recurse forever). A chain without a cycle visits
+    /// every registered element at most once, so one longer than the element table is
+    /// cyclic - the (nesting) depth limit is not involved.
+    fn element_bbox_at_depth(&self, el: &SvgElement, depth: usize) -> Result<Option<BoundingBox>> {
+        if depth > self.elem_map.len() {
+            return Err(SvgdxError::CircularRefError(
+                "clip-path references form a cycle".to_owned(),
             ));
         }
         let target_el = el.get_target_element(self)?;
@@ -220,11 +221,11 @@ impl TransformerContext {
             let clip_el = self
                 .get_element(&clip_id)
                 .ok_or(SvgdxError::ReferenceError(clip_id))?;
-            if let ("clipPath", Some(clip_bbox)) = (
-                clip_el.name.as_str(),
-                self.element_bbox_at_depth(clip_el, depth + 1)?,
-            ) {
-                el_bbox = bbox.intersect(&clip_bbox);
+            // only a <clipPath> clips (and only then is the chain followed)
+            if clip_el.name == "clipPath" {
+                if let Some(clip_bbox) = self.element_bbox_at_depth(clip_el, depth + 1)? {
+                    el_bbox = bbox.intersect(&clip_bbox);
+                }
             }
         }
 
